@@ -190,6 +190,7 @@ type trace struct {
 	Null     bool           `json:"group_null"`
 	Hash     flavour        `json:"hash"`
 	RandSeed int64          `json:"rand_seed"`
+	ViaCSV   bool           `json:"frame_rebuilt_by_ReadCSV,omitempty"`
 	Op       string         `json:"op"`
 	Source   *obs.Frame     `json:"source,omitempty"`
 	Model    [][]int        `json:"model_classes,omitempty"`
@@ -432,6 +433,12 @@ func run(t *rapid.T, prop string) {
 	if !core.Thorough() && gen.Rare(t, "bigframe", 60) {
 		b.MinRows, b.MaxRows = 100, 700 // several growth steps of the table, also in the quick tier
 	}
+	if gen.Rare(t, "over1024", 300) {
+		// beyond a thousand rows with several keys of mixed types (strategies
+		// that only switch on for "large" frames)
+		b.MinRows, b.MaxRows, b.MinCols, b.SmallDomain = 1024, 1300, 3, true
+		core.Probe("over-1024-rows")
+	}
 	fs := gen.DrawFrame(t, b)
 	scr := gen.DrawLayoutScramble(t, fs)
 	tr := &trace{Frame: fs, Scramble: scr}
@@ -448,6 +455,7 @@ func run(t *rapid.T, prop string) {
 	tr.Null = rapid.Bool().Draw(t, "groupnull")
 	tr.Hash = drawFlavour(t)
 	tr.RandSeed = rapid.Int64().Draw(t, "randseed")
+	viaCSV := rapid.IntRange(0, 5).Draw(t, "viacsv")
 	core.Eval()
 
 	base := fs.Build()
@@ -457,6 +465,15 @@ func run(t *rapid.T, prop string) {
 	qf := scr.Apply(base)
 	if qf.Err != nil {
 		t.Fatalf("harness: scramble failed: %v", qf.Err)
+	}
+	if viaCSV <= 1 {
+		// the same table built by the CSV reader (the model below starts from
+		// what this frame shows, whichever way it was built)
+		if back, ok := gen.ViaCSV(qf, viaCSV == 1); ok {
+			qf = back
+			tr.ViaCSV = true
+			core.Probe("frame-built-by-ReadCSV")
+		}
 	}
 	src := obs.Of(qf)
 	tr.Source = src
